@@ -496,13 +496,10 @@ func (w *saoWorld) nextScheduled() int64 {
 
 // advance runs empty blocks; returns false when the chain halted.
 func (w *saoWorld) advance(n int) bool {
-	for i := 0; i < n; i++ {
-		if w.c.Halted != "" {
-			return false
-		}
-		w.r.BeginBlock()
-		w.r.EndBlock()
+	if w.c.Halted != "" {
+		return false
 	}
+	w.r.Blocks(n)
 	return w.c.Halted == ""
 }
 
